@@ -90,6 +90,34 @@ func Apply(s *State, label string, lag int) error {
 		if !s.Deliver(arg) {
 			return fmt.Errorf("nothing to deliver for %s", arg)
 		}
+	case "gcorphan":
+		// the garbage collector strips owner references to an owner deleted with orphan propagation
+		kindName := strings.SplitN(arg, "/", 2)
+		if len(kindName) != 2 || len(f) < 3 {
+			return fmt.Errorf("bad gcorphan %q", label)
+		}
+		uid := f[2]
+		switch kindName[0] {
+		case "pods":
+			p := s.API.Pods[kindName[1]]
+			if p == nil {
+				return fmt.Errorf("no pod %s", kindName[1])
+			}
+			n := bump(p)
+			n.OwnerReferences = stripOwner(n.OwnerReferences, uid)
+			s.PutPod(n, lag)
+		case "revs":
+			r := s.API.Revs[kindName[1]]
+			if r == nil {
+				return fmt.Errorf("no revision %s", kindName[1])
+			}
+			n := r.DeepCopy()
+			n.ResourceVersion = s.nextRV()
+			n.OwnerReferences = stripOwner(n.OwnerReferences, uid)
+			s.PutRev(n)
+		default:
+			return fmt.Errorf("bad gcorphan kind %q", kindName[0])
+		}
 	case "unready", "fail", "succeed":
 		p := s.API.Pods[arg]
 		if p == nil {
@@ -227,4 +255,34 @@ func fmtSlots(m map[int32]bool) string {
 		parts = append(parts, fmt.Sprint(k))
 	}
 	return "[" + strings.Join(parts, ",") + "]"
+}
+
+func stripOwner(refs []metav1.OwnerReference, uid string) []metav1.OwnerReference {
+	var out []metav1.OwnerReference
+	for _, r := range refs {
+		if string(r.UID) != uid {
+			out = append(out, r)
+		}
+	}
+	return out
+}
+
+// GCProgress lists the pending garbage-collector orphaning steps for owner uid.
+func GCProgress(s *State, uid string) []string {
+	var out []string
+	for _, n := range sortedKeys(s.API.Pods) {
+		for _, r := range s.API.Pods[n].OwnerReferences {
+			if string(r.UID) == uid {
+				out = append(out, "gcorphan pods/"+n+" "+uid)
+			}
+		}
+	}
+	for _, n := range sortedKeys(s.API.Revs) {
+		for _, r := range s.API.Revs[n].OwnerReferences {
+			if string(r.UID) == uid {
+				out = append(out, "gcorphan revs/"+n+" "+uid)
+			}
+		}
+	}
+	return out
 }
